@@ -170,6 +170,42 @@ proofs! {
     core::mem::forget((d, p));
 }
 
+// the same on a separator frame: concrete subtags, every ? any ASCII byte
+[push, sortv, boxed] fn c19_deserialize_frame() {
+    let buf = crate::c02::sep_frame(b"en?US");
+    k::assume(buf[2] < 0x80);
+    let s: &str = unsafe { core::str::from_utf8_unchecked(&buf) };
+    #[cfg(not(kani))]
+    eprintln!("INPUT s={:?}", s);
+    let d = LanguageIdentifier::deserialize(In::Str(s));
+    let p: Result<LanguageIdentifier, _> = s.parse();
+    cover!(d.is_ok());
+    cover!(d.is_err());
+    match (&d, &p) {
+        (Ok(a), Ok(b)) => assert!(a == b, "deserialised value equals the parsed value"),
+        (Err(_), Err(_)) => {}
+        _ => assert!(false, "deserialising a string succeeds iff parsing it succeeds"),
+    }
+    core::mem::forget((d, p));
+}
+[push, sortv, boxed] fn c19_deserialize_str_2() {
+    let b: [u8; 2] = k::bytes();
+    k::assume(b[0] < 0x80 && b[1] < 0x80);
+    let s: &str = unsafe { core::str::from_utf8_unchecked(&b) };
+    #[cfg(not(kani))]
+    eprintln!("INPUT s={:?}", s);
+    let d = LanguageIdentifier::deserialize(In::Str(s));
+    let p: Result<LanguageIdentifier, _> = s.parse();
+    cover!(d.is_ok());
+    cover!(d.is_err());
+    match (&d, &p) {
+        (Ok(a), Ok(b)) => assert!(a == b, "deserialised value equals the parsed value"),
+        (Err(_), Err(_)) => {}
+        _ => assert!(false, "deserialising a string succeeds iff parsing it succeeds"),
+    }
+    core::mem::forget((d, p));
+}
+
 // non-string inputs are rejected with an error, never a panic
 [] fn c19_non_string_rejected() {
     let sel = k::u8();
